@@ -59,14 +59,20 @@ type Plan struct {
 	Hook        string     `json:"hook"`                       // none, fast, 50ms, most-of-wait, beyond-wait
 	Sense       bool       `json:"sense_client_disconnection"` // standard transport only
 	OnConnectMs int        `json:"on_connect_ms,omitempty"`    // an OnConnect callback that takes this long; a last connection sends its request and is still inside the callback when Shutdown is called
-	Registry    string     `json:"registry,omitempty"`         // "", "ok" or "failing": a service registry whose Deregister succeeds / returns an error at shutdown
+	Registry    string     `json:"registry,omitempty"`         // "", "ok", "failing" or "slow": a service registry whose Deregister succeeds / returns an error / comes back only after the exit wait time
 	Conns       []ConnPlan `json:"connections"`
 }
 
-type fakeRegistry struct{ fail bool }
+type fakeRegistry struct {
+	fail bool
+	slow time.Duration
+}
 
 func (r *fakeRegistry) Register(*registry.Info) error { return nil }
 func (r *fakeRegistry) Deregister(*registry.Info) error {
+	if r.slow > 0 {
+		time.Sleep(r.slow) // the registry centre answers late (slow or unreachable)
+	}
 	if r.fail {
 		return errors.New("registry centre unreachable")
 	}
@@ -203,7 +209,11 @@ func runPlanInner(p *Plan) (msg string, log []string) {
 		}
 	}
 	if p.Registry != "" {
-		opts = append(opts, server.WithRegistry(&fakeRegistry{fail: p.Registry == "failing"}, &registry.Info{ServiceName: "c18", Weight: 10}))
+		reg := &fakeRegistry{fail: p.Registry == "failing"}
+		if p.Registry == "slow" {
+			reg.slow = wait + slack + time.Second
+		}
+		opts = append(opts, server.WithRegistry(reg, &registry.Info{ServiceName: "c18", Weight: 10}))
 	}
 	var onConnectEntered int32
 	dialed := int32(0) // connections this scenario opened so far (each passes through OnConnect once accepted)
@@ -600,7 +610,7 @@ func genPlan(t *rapid.T, transport string) *Plan {
 	if transport == "standard" {
 		p.Sense = rapid.Bool().Draw(t, "senseClientDisconnection")
 	}
-	p.Registry = rapid.SampledFrom([]string{"", "", "ok", "failing"}).Draw(t, "registry")
+	p.Registry = rapid.SampledFrom([]string{"", "", "ok", "failing", "slow"}).Draw(t, "registry")
 	if rapid.IntRange(0, 3).Draw(t, "slowOnConnect") == 0 {
 		p.OnConnectMs = 40
 	}
@@ -820,4 +830,107 @@ func TestC18Signals(t *testing.T) {
 			}
 		}
 	}
+}
+
+// TestC18ConcurrentShutdown: Shutdown called by several goroutines at the same moment (a signal and an
+// admin endpoint, two signal handlers) while a request is in progress. Every call but one is "a second
+// shutdown" and reports an error; a call that returns nil before the exit wait time is over claims that
+// the request in progress has been answered.
+func TestC18ConcurrentShutdown(t *testing.T) {
+	rec := ev.New("concurrent-shutdown")
+	dir, _ := os.Getwd()
+	rapid.Check(t, func(t *rapid.T) {
+		transport := rapid.SampledFrom([]string{"standard", "netpoll"}).Draw(t, "transport")
+		callers := rapid.IntRange(2, 8).Draw(t, "callers")
+		holdMs := rapid.SampledFrom([]int{0, 20, 60}).Draw(t, "handlerHeldMs")
+		wait := 1500 * time.Millisecond
+		sock := filepath.Join(dir, fmt.Sprintf("cs%d-%d.sock", os.Getpid(), atomic.AddInt32(&sockCounter, 1)))
+		if len(sock) > 100 {
+			sock = filepath.Join(os.TempDir(), filepath.Base(sock))
+		}
+		os.Remove(sock)
+		defer os.Remove(sock)
+		opts := []config.Option{server.WithNetwork("unix"), server.WithHostPorts(sock), server.WithExitWaitTime(wait)}
+		if transport == "netpoll" {
+			opts = append(opts, server.WithTransport(netpoll.NewTransporter))
+		} else {
+			opts = append(opts, server.WithTransport(standard.NewTransporter))
+		}
+		h := server.New(opts...)
+		defer h.Close() //nolint:errcheck
+		entered, release := make(chan struct{}, 1), make(chan struct{})
+		var handlerDone int64
+		h.GET("/park", func(c context.Context, ctx *app.RequestContext) {
+			entered <- struct{}{}
+			<-release
+			ctx.SetBodyString("parked")
+			atomic.StoreInt64(&handlerDone, time.Now().UnixNano())
+		})
+		go h.Run() //nolint:errcheck
+		var conn net.Conn
+		var err error
+		for i := 0; i < 600; i++ {
+			if conn, err = net.Dial("unix", sock); err == nil {
+				break
+			}
+			time.Sleep(5 * time.Millisecond)
+		}
+		if err != nil {
+			t.Fatalf("harness: server did not start: %v", err)
+		}
+		defer conn.Close()
+		fmt.Fprintf(conn, "GET /park HTTP/1.1\r\nHost: h\r\n\r\n")
+		select {
+		case <-entered:
+		case <-time.After(5 * time.Second):
+			t.Fatalf("harness: the request did not reach its handler")
+		}
+		type ret struct {
+			err error
+			at  int64
+		}
+		rets := make([]ret, callers)
+		var ready, done sync.WaitGroup
+		var gate int32 // a spin barrier: the callers leave it within the same microsecond
+		for k := 0; k < callers; k++ {
+			ready.Add(1)
+			done.Add(1)
+			go func(k int) {
+				defer done.Done()
+				ready.Done()
+				for atomic.LoadInt32(&gate) == 0 {
+				}
+				err := h.Shutdown(context.Background())
+				rets[k] = ret{err, time.Now().UnixNano()}
+			}(k)
+		}
+		ready.Wait()
+		time.Sleep(2 * time.Millisecond) // let them all reach the barrier
+		t0 := time.Now()
+		atomic.StoreInt32(&gate, 1)
+		time.Sleep(time.Duration(holdMs) * time.Millisecond)
+		close(release)
+		fin := make(chan struct{})
+		go func() { done.Wait(); close(fin) }()
+		select {
+		case <-fin:
+		case <-time.After(wait + slack):
+			t.Fatalf("%d concurrent Shutdown calls (%s) did not all return within the exit wait time (%v) + %v", callers, transport, wait, slack)
+		}
+		nils := 0
+		var desc []string
+		for _, r := range rets {
+			desc = append(desc, fmt.Sprintf("%v after %v", r.err, time.Duration(r.at-t0.UnixNano())))
+			if r.err == nil {
+				nils++
+				if hd := atomic.LoadInt64(&handlerDone); time.Duration(r.at-t0.UnixNano()) < wait-20*time.Millisecond && (hd == 0 || hd > r.at) {
+					t.Fatalf("%s, %d concurrent Shutdown calls: one returned nil after %v, before the exit wait time (%v), while the request in progress was still in its handler\nreturns: %v", transport, callers, time.Duration(r.at-t0.UnixNano()), wait, desc)
+				}
+			}
+		}
+		rec.Case(true, ev.HashString(transport, fmt.Sprint(callers, holdMs)), "transport-"+transport, fmt.Sprintf("callers-%d", callers))
+		if nils > 1 {
+			t.Fatalf("%s: %d of %d concurrent Shutdown calls returned nil; every call but one is a second shutdown and has to report an error\nreturns: %v", transport, nils, callers, desc)
+		}
+	})
 }
